@@ -118,7 +118,25 @@ def minimise(plan: dict, script: list, cls: str, budget_s: float = 120.0) -> (di
     def left():
         return budget_s - (time.monotonic() - t0)
 
-    # 1. schedule
+    # 1. schedule: a dense random schedule (tens of thousands of switches) is first replaced by a
+    #    sparse one that fails the same way, when a bounded search finds one
+    if len(script) > 300:
+        best = None
+        for k in range(10):
+            p2 = dict(plan, seed=(plan["seed"] + 104729 * (k + 1)) & 0xFFFFFFFFFFFF)
+            p2["strategy"] = [["pct", 2, 4000], ["pct", 3, 8000], ["uniform", 0.002], ["uniform", 0.01],
+                              ["lazyinit", 0.6, 0.3]][k % 5]
+            try:
+                r = evaluate(p2)
+            except proc.HarnessError:
+                continue
+            if r["violation"] is not None and r["violation"]["class"] == cls:
+                if best is None or len(r["switches"]) < len(best[1]):
+                    best = (p2, r["switches"])
+            if left() < budget_s * 0.6:
+                break
+        if best is not None and len(best[1]) < len(script):
+            plan, script = best
     script = ddmin.ddmin(script, lambda s: left() > 0 and _fails_with(plan, s, cls), budget=250)
     # 2. workload: drop operations / fault / knobs, re-searching a schedule
     changed = True
